@@ -96,8 +96,9 @@ structure St (S M : Type) where
   stack : List S
   /-- (fix) some node was cut off by `MaxDepth` -/
   depthLimited : Bool
-  /-- ghost, never read by the solver: `expand` was called on a node whose numbers already had a
-  zero (possible only once 32-bit sums saturate).  The soundness theorems assume it stays `false`. -/
+  /-- ghost, never read by the solver: `expand` or the renumbering in `updateAncestors` reached a node
+  whose numbers already had a zero (the selection descends into such a node only when a 32-bit sum
+  has saturated at `MaxUint32`).  The soundness theorems assume it stays `false`. -/
   anomaly : Bool
 
 section
@@ -245,6 +246,9 @@ def updateAncestors (base : Nat) : Nat → St S M → Except Err (St S M)
     | cur :: _ =>
       let oldphi := st.focus.phi
       let olddelta := st.focus.delta
+      -- ghost: a solved node without children (dropped, or never expanded) is numbered again
+      let st := { st with anomaly := st.anomaly ||
+        (st.focus.children.isEmpty && (oldphi == 0 || olddelta == 0)) }
       let node := setNumbers G cur st.focus
       let isRoot := st.up.length == base
       let r : Except Err (Option (St S M)) :=   -- none = `return node`
@@ -383,15 +387,18 @@ def readResult (st : St S M) : Result M × Stats :=
   ({ result := value, depth := root.proofDepth.toUInt32, proof := root.proof, disproof := root.disproof, move := pv },
    st.stats)
 
-/-- `Prover.Prove` on a fresh `Prover` -/
-def prove [Inhabited M] (fuel : Nat) (cfg : Cfg) (pos : S) : Except Err (Result M × Stats) :=
+/-- the state in which `Prove` reads the result: after `prove()` -/
+def proveState [Inhabited M] (fuel : Nat) (cfg : Cfg) (pos : S) : Except Err (St S M) :=
   let cfg := effectiveCfg cfg
   match initState G attacker cfg pos with
   | none => .error (.panic "inconsistent current position")
-  | some st0 =>
-    match search G attacker 0 cfg.maxNodes fuel st0 with
-    | .error e => .error e
-    | .ok st => .ok (readResult st)
+  | some st0 => search G attacker 0 cfg.maxNodes fuel st0
+
+/-- `Prover.Prove` on a fresh `Prover` -/
+def prove [Inhabited M] (fuel : Nat) (cfg : Cfg) (pos : S) : Except Err (Result M × Stats) :=
+  match proveState G attacker fuel cfg pos with
+  | .error e => .error e
+  | .ok st => .ok (readResult st)
 
 end
 
